@@ -533,6 +533,7 @@ type GhostField struct {
 	Name    string
 	Type    string
 	PkgPath string
+	ZeroInit bool // "zeroinit": the zero value of the owner type has the zero value of this field
 }
 
 type ContractFile struct {
@@ -666,7 +667,11 @@ func parseContractFile(path string, pkgPath string) (*ContractFile, error) {
 				if i < 0 {
 					return nil, fmt.Errorf("%s:%d: ghost field needs Type.name", path, l.no)
 				}
-				cf.Fields = append(cf.Fields, &GhostField{Owner: parts[0][:i], Name: parts[0][i+1:], Type: strings.TrimSpace(parts[1]), PkgPath: cf.PkgPath})
+				ft, zi := strings.TrimSpace(parts[1]), false
+				if strings.HasSuffix(ft, " zeroinit") {
+					ft, zi = strings.TrimSpace(strings.TrimSuffix(ft, " zeroinit")), true
+				}
+				cf.Fields = append(cf.Fields, &GhostField{Owner: parts[0][:i], Name: parts[0][i+1:], Type: ft, PkgPath: cf.PkgPath, ZeroInit: zi})
 				continue
 			}
 			if !strings.HasPrefix(rest, "func ") {
